@@ -688,7 +688,7 @@ class Gen:
 
     def begin_step(self):
         self.emit(0, "cycBegin")
-        self.step = 2 * self.registered + 1      # rx / empty per receiver, then the report
+        self.step = 3 * self.registered + 1      # first pass: rx / empty per receiver; second pass: rx2 per receiver; then the report
 
     def advance_step(self, force=False):
         if not force and not self.r.chance(1, 2):
